@@ -352,3 +352,146 @@ def run_specs(op):
     finally:
         sys.stdout, sys.stderr = old_out, old_err
     return out
+
+
+def run_solve(op):
+    """Front-end + real encoder + simulated solver peer on each sub-block specification.
+    op: {"argv": flags, "blocks": [text], "peers": [plan entries], "max_len": n, "greedy": bool}
+    Returns a list of {"key", "sfs", "smt2", "results": [{"peer", "outcome", "ids", "exc", "cost"}], "greedy": ids|None}."""
+    import copy
+    import re as _re
+    env = op.get("env", {})
+    clock = simfs.SimClock()
+    fs = simfs.SimFS(clock)
+    solver = simsolver.SimSolver(fs, [], random.Random(0), clock)
+    solver.keyed = False
+    mods = seams.install(fs, env, solver=solver)
+    g = mods["gasol_asm"]
+    pa = mods["sfs_generator.parser_asm"]
+    bo = mods["smt_encoding.block_optimizer"]
+    gr = mods["greedy.block_generation"]
+    constants = mods["global_params.constants"]
+    old_out, old_err = sys.stdout, sys.stderr
+    sys.stdout, sys.stderr = io.StringIO(), io.StringIO()
+    out = []
+    try:
+        g.init()
+        params = parse_argv(mods, ["/sim/in/s.txt", "-bl"] + op["argv"])
+        if params.split_storage:
+            constants.append_store_instructions_to_split()
+        constants._set_push0(params.push0)
+        for bi, text in enumerate(op["blocks"]):
+            try:
+                b = pa.parse_blocks_from_plain_instructions(text, "c", "b%d" % bi)[0]
+                d, subs = g.compute_original_sfs_with_simplifications(b, params)
+            except BaseException as e:
+                if isinstance(e, procs.Budget):
+                    raise
+                out.append({"block": bi, "exc": "%s: %s" % (type(e).__name__, str(e)[:200])})
+                continue
+            inner = [list(x) for x in subs]
+            for k in range(len(subs) - 1):
+                inner[k] = inner[k][:-1]
+                inner[k + 1] = inner[k + 1][1:]
+            for key, sfs in d["syrup_contract"].items():
+                if sfs["init_progr_len"] > op.get("max_len", 8) or sfs["init_progr_len"] <= 0:
+                    continue
+                k = int(key.rsplit("_", 1)[1])
+                rec = {"block": bi, "key": key, "sfs": copy.deepcopy(sfs), "results": [], "smt2": None,
+                       "sub_block": inner[k] if k < len(inner) else None, "greedy": None, "block_text": text}
+                if op.get("greedy"):
+                    try:
+                        _, _, _, gids, err = gr.greedy_from_json(copy.deepcopy(sfs))
+                        rec["greedy"] = list(gids) if err == 0 else None
+                    except BaseException as e:
+                        if isinstance(e, procs.Budget):
+                            raise
+                        rec["greedy"] = None
+                tout = params.timeout * (1 + len([1 for i in sfs["user_instrs"] if i["storage"]]))
+                for peer in op["peers"]:
+                    solver.plan = [dict(peer, keep_smt2=True)]
+                    solver.n = 0
+                    solver.calls = []
+                    r = {"peer": peer, "outcome": None, "ids": None, "exc": None, "cost": None}
+                    try:
+                        optimizer = bo.BlockOptimizer(key, copy.deepcopy(sfs), params, tout)
+                        if rec.get("theta") is None:
+                            try:
+                                rec["theta"] = {str(t): ins.id for t, ins in optimizer._full_encoding.theta_to_instr.items()}
+                            except Exception:
+                                rec["theta"] = None
+                        outcome, _, ids = optimizer.optimize_block()
+                        r["outcome"] = outcome.name
+                        r["ids"] = list(ids)
+                    except BaseException as e:
+                        if isinstance(e, procs.Budget):
+                            raise
+                        tb = sys.exc_info()[2]
+                        r["exc"] = "%s: %s" % (type(e).__name__, str(e)[:200])
+                        r["frame"] = innermost_repo_frame(tb)
+                    if solver.calls:
+                        if rec["smt2"] is None:
+                            rec["smt2"] = solver.calls[0]["smt2"]
+                        reply = solver.prev_reply
+                        m = _re.search(r"\(cost (\d+)\)", reply)
+                        r["cost"] = int(m.group(1)) if m else None
+                        r["head"] = reply.split("\n", 1)[0][:30]
+                        r["z3_error"] = "(error" in reply and "model is not available" not in reply
+                    rec["results"].append(r)
+                out.append(rec)
+    finally:
+        sys.stdout, sys.stderr = old_out, old_err
+    return out
+
+
+def run_compare(op):
+    """API-level op for C05: the tool's own block comparison on pairs of plain-text blocks.
+    op: {"argv": flags, "pairs": [[textA, textB], ...]} -> [{"eq": bool, "reason": str} | {"exc": str, "frame": str}]"""
+    fs = simfs.SimFS()
+    mods = seams.install(fs, op.get("env", {}))
+    g = mods["gasol_asm"]
+    pa = mods["sfs_generator.parser_asm"]
+    constants = mods["global_params.constants"]
+    old_out, old_err = sys.stdout, sys.stderr
+    sys.stdout, sys.stderr = io.StringIO(), io.StringIO()
+    out = []
+    try:
+        g.init()
+        params = parse_argv(mods, ["/sim/in/s.txt", "-bl"] + op["argv"])
+        if params.split_storage:
+            constants.append_store_instructions_to_split()
+        constants._set_push0(params.push0)
+        real = g._compare_asm_block_asm_format if hasattr(g, "_compare_asm_block_asm_format") else None
+        for pi, (ta, tb) in enumerate(op["pairs"]):
+            try:
+                a = pa.parse_blocks_from_plain_instructions(ta, "c", "p%d" % pi)[0]
+                b = pa.parse_blocks_from_plain_instructions(tb, "c", "p%d" % pi)[0]
+                b.set_block_name(a.get_block_name())
+                b.set_block_id(a.get_block_id())
+            except BaseException as e:
+                out.append({"parse_exc": "%s: %s" % (type(e).__name__, str(e)[:100])})
+                continue
+            rec = {}
+            # the raw comparison (does it raise?) and the contained one (what the pipeline sees)
+            if real is not None:
+                try:
+                    real(a, b, params)
+                except BaseException as e:
+                    if isinstance(e, procs.Budget):
+                        raise
+                    rec["raw_exc"] = "%s: %s" % (type(e).__name__, str(e)[:120])
+                    rec["raw_frame"] = innermost_repo_frame(sys.exc_info()[2])
+                b.set_block_name(a.get_block_name())
+            try:
+                eq, reason = g.compare_asm_block_asm_format(a, b, params)
+                rec["eq"] = bool(eq)
+                rec["reason"] = str(reason)[:200]
+            except BaseException as e:
+                if isinstance(e, procs.Budget):
+                    raise
+                rec["exc"] = "%s: %s" % (type(e).__name__, str(e)[:120])
+                rec["frame"] = innermost_repo_frame(sys.exc_info()[2])
+            out.append(rec)
+    finally:
+        sys.stdout, sys.stderr = old_out, old_err
+    return out
